@@ -83,13 +83,20 @@ func (a *agg) add(w *check.World, o *check.Outcome) {
 }
 
 var wantedProbes = map[string][]string{
-	"C06": {"append_between_open_and_truncate", "tasks_lifetime", "race_lifetime", "shared_file_two_tasks"},
-	"C03": {"ordinal_ge_10", "count_gt_1"},
-	"C07": {"count_gt_1", "clean_ran", "run_filter"},
-	"C08": {"run_filter", "skip_call", "clean_ran"},
-	"C09": {"clean_ran", "clean_deletes", "sort_requested"},
-	"C10": {"clean_ran", "sort_requested", "clean_rewrote"},
-	"C20": {"fault_fired", "clean_ran"},
+	"C01": {"judged_equal_passed", "files_checked_by_replay_only"},
+	"C02": {"judged_differ_failed"},
+	"C03": {"ordinal_ge_10", "count_gt_1", "files_checked_structurally", "judged_missing_added"},
+	"C04": {"judged_differ_updated", "judged_equal_passed", "files_checked_structurally"},
+	"C05": {"judged_missing_failed", "judged_differ_updated", "judged_differ_failed", "clean_deletes", "clean_obsolete_entries"},
+	"C06": {"tasks_lifetime", "race_lifetime", "shared_file_two_tasks", "judged_differ_updated", "judged_missing_added"},
+	"C07": {"count_gt_1", "clean_ran", "run_filter", "clean_keep_entries_C07", "clean_keep_files_C07"},
+	"C08": {"run_filter", "skip_call", "clean_ran", "clean_keep_entries_C08", "clean_keep_files_C08"},
+	"C09": {"clean_ran", "clean_deletes", "sort_requested", "clean_obsolete_entries", "clean_obsolete_files", "clean_keep_files_C09"},
+	"C10": {"clean_ran", "sort_requested", "clean_rewrote", "files_checked_structurally"},
+	"C12": {"tasks_lifetime", "race_lifetime"},
+	"C17": {"judged_matcher_failed"},
+	"C19": {"count_gt_1", "judged_differ_updated"},
+	"C20": {"fault_fired", "clean_ran", "judged_invalid_failed", "tasks_lifetime"},
 }
 
 func (a *agg) reachWarnings() []string {
